@@ -354,6 +354,34 @@ def run(ctx):
 
     drive.for_each_case(ctx, 'initfalse', 40, body_initfalse, gen=lambda c, r: Ty('int'))
 
+    # an UNPARAMETERISED generic dataclass whose field is typed by a bounded / constrained type variable: the variable is read as its
+    # bound, and the handlers in force are those of each use (call-level A, call-level B, class-level, none), in any order
+    def body_typevar(i, rng, ty, T):
+        import types as _types
+        import warnings
+        TB = t.TypeVar(f"TB{i}", bound=int) if rng.random() < 0.6 else t.TypeVar(f"TC{i}", int, str)
+        G = _types.new_class(f"GV{next(_serial)}", (env.PaneBase, t.Generic[TB]), {}, lambda ns: ns.update({'__annotations__': {'f': TB, 'n': int}, 'n': 0, '__module__': __name__}))
+        H = _types.new_class(f"GW{next(_serial)}", (env.PaneBase, t.Generic[TB]), {'custom': {int: StampConv('class')}},
+                             lambda ns: ns.update({'__annotations__': {'f': TB}, '__module__': __name__}))
+        uses = [('A', lambda: env.from_data({'f': 5}, G, custom={int: StampConv('A')}), 'A'), ('B', lambda: env.from_data({'f': 5}, G, custom={int: StampConv('B')}), 'B'),
+                ('none', lambda: env.from_data({'f': 5}, G), None), ('class', lambda: H.from_data({'f': 5}), 'class'),
+                ('list-A', lambda: env.from_data([{'f': 5}], t.List[G], custom={int: StampConv('A')})[0], 'A')]
+        seq = [rng.choice(uses) for _ in range(rng.randint(3, 6))]
+        with warnings.catch_warnings():
+            warnings.simplefilter('ignore')
+            for step, (name, call, stamp) in enumerate(seq):
+                o = observe(call)
+                ctx.count('typevar_field_handler_uses')
+                ctx.case(('typevar-field', name, o.kind), nontrivial=True)
+                got = o.val.f if o.kind == 'value' else None
+                ok = o.kind == 'value' and ((stamp is None and type(got) is int and got == 5) or (stamp is not None and isinstance(got, Stamp) and got.source == stamp))
+                if not ok:
+                    ctx.violation('precedence', 'typevar', i, {'type_variable': repr(TB), 'uses_in_order': [n for n, *_ in seq], 'step': step, 'use': name,
+                                                               'expected': stamp or 'plain int', 'outcome': o.brief()}, mech='typevar-field:handlers-of-another-use')
+                    return
+
+    drive.for_each_case(ctx, 'typevar', 40, body_typevar, gen=lambda c, r: Ty('int'))
+
     # the mapping form matches only the exact unparameterised type
     def body_exact(i, rng, ty, T):
         conv = StampConv('mapping')
